@@ -1,5 +1,6 @@
 import J5V.Pipe.Proofs
 import J5V.Pipe.WalkProofs
+import J5V.Pipe.ListProofs
 import J5V.Pipe.Swagger
 import J5V.Generated.PipeFacts
 /-!
@@ -172,27 +173,42 @@ theorem C16_refs_complete (g : Graph) (roots : List Field) (s : List Nat)
     (h : collect g roots = some s) : ∀ n, Reach g roots n → n ∈ s :=
   collect_complete g roots s h
 
-/-! ## list request: enum default filters (open finding `client:err:list-enum-default`) -/
+/-! ## list request: enum default filters (finding `client:err:list-enum-default`, repaired by `fix:` b6c593a) -/
 
-/-- full strength: `buildListRequest` never refuses the default filters of an enum field of a
-compiled package. The compiler does not look at `listRules.filtering.defaultFilters` at all, so
-"compiled" puts no condition on them. -/
-def ListDefaultsFull : Prop :=
-  ∀ (options defaults : List Str), defaultFiltersOk options defaults = true
+/-- **Whatever the compiler accepts as default filters of an enum field, the client accepts.**
+For every prefix, every list of declared options and every list of default filters: if
+`EnumRef.mapValues` (run by `buildField` on `listRules.filtering.defaultFilters` since `fix:`
+b6c593a) succeeds on the enum the compiler emits, then the schema reader recovers that enum from
+the descriptor (`buildEnum`: same prefix, the trimmed value names) and `buildListRequest`'s
+`OptionByName` lookup succeeds for every default filter — in either spelling, with or without the
+prefix. Full strength; before the repair the compiler did not look at the default filters at all
+and this was false (`defaultFilters = ["BOGUS"]`). -/
+theorem C16_list_defaults_accepted (pfx : Str) (opts defaults : List Str)
+    (h : compileDefaultsOk pfx (enumValueNames pfx opts) defaults = true) :
+    ∃ os, readEnum (enumValueNames pfx opts) = some (pfx, os) ∧ defaultFiltersOk pfx os defaults = true :=
+  ⟨_, readEnum_enumValueNames pfx opts, defaultFiltersOk_of_compile pfx _ defaults h⟩
 
-/-- false of the code as it is: `defaultFilters = ["BOGUS"]` on an enum with options RED / BLUE
-compiles and is refused by `j5client.APIFromSource` (replay: the corpus op with `shade fD R e Color`) -/
-theorem C16_list_defaults_counterexample : ¬ ListDefaultsFull := by
-  intro h
-  have := h [b!"UNSPECIFIED", b!"RED", b!"BLUE"] [b!"BOGUS"]
-  revert this
+/-- the same on the composed function the driver runs: the outcome "compiler accepts, client
+refuses" does not exist -/
+theorem C16_list_defaults_chain (pfx : Str) (opts defaults : List Str) :
+    enumDefaultsChain pfx opts defaults ≠ some false :=
+  enumDefaultsChain_ne_false pfx opts defaults
+
+/-- the witness of the repaired finding (replay: the corpus op with `shade fD R e Color`): the
+compiler now rejects `BOGUS` on `enum Color { RED BLUE }`, the client-side check still would;
+both spellings of a real option pass both checks, and an explicit `UNSPECIFIED` first option is
+the zero value itself -/
+theorem C16_list_defaults_rejected :
+    enumDefaultsChain b!"COLOR_" [b!"RED", b!"BLUE"] [b!"BOGUS"] = none
+    ∧ defaultFiltersOk b!"COLOR_" [b!"UNSPECIFIED", b!"RED", b!"BLUE"] [b!"BOGUS"] = false
+    ∧ enumDefaultsChain b!"COLOR_" [b!"RED", b!"BLUE"] [b!"RED", b!"COLOR_BLUE", b!"UNSPECIFIED"] = some true
+    ∧ enumValueNames b!"COLOR_" [b!"UNSPECIFIED", b!"COLOR_RED", b!"BLUE"]
+        = [b!"COLOR_UNSPECIFIED", b!"COLOR_RED", b!"COLOR_BLUE"] := by
   decide
 
-/-- … and holds exactly for the packages whose default filters name options of the enum -/
-theorem C16_list_defaults_partial (options defaults : List Str) :
-    defaultFiltersOk options defaults = true ↔ ∀ d ∈ defaults, d ∈ options := by
-  unfold defaultFiltersOk
-  simp [List.all_eq_true]
+/-- non-vacuity of `C16_list_defaults_accepted`: defaults in both spellings are accepted by the compiler -/
+example : compileDefaultsOk b!"COLOR_" (enumValueNames b!"COLOR_" [b!"RED", b!"BLUE"]) [b!"RED", b!"COLOR_BLUE"] = true := by
+  decide
 
 /-! ## OpenAPI conversion -/
 
